@@ -607,6 +607,52 @@ func (g *gen) ray(wild bool) string {
 	return fmt.Sprintf("GR %s %s %s %s %s %s", bits(f.x), bits(f.y), bits(f.z), bits(t.x), bits(t.y), bits(t.z))
 }
 
+// hug: a plane whose far edge lies one to three float32 steps below the grid's far border (after the grid has grown
+// towards negative coordinates the subtraction `edge - Min` rounds such an edge onto the border), followed by smaller
+// samples of the same plane, which merge into it
+func (g *gen) hug(w *world) string {
+	r := g.rng
+	mn, mx := xyz(w.g.Min), xyz(w.g.Max)
+	below := func(v float32, k int) float32 {
+		for i := 0; i < k; i++ {
+			v = math.Nextafter32(v, float32(math.Inf(-1)))
+		}
+		return v
+	}
+	// centre and extent whose float32 sum is exactly the target edge
+	split := func(lo, target float32) (float32, float32) {
+		e := float32(0.25 + r.Float64()*float64(target-lo)/2)
+		for i := 0; i < 64; i++ {
+			c := target - e
+			if c+e == target && c-e >= lo {
+				return c, e
+			}
+			e = math.Nextafter32(e, 0)
+		}
+		return (lo + target) / 2, (target - lo) / 2
+	}
+	cx, ex := split(mn.x, below(mx.x, 1+r.Intn(3)))
+	cz, ez := split(mn.z, below(mx.z, 1+r.Intn(3)))
+	switch r.Intn(3) {
+	case 0: // only x hugs the border
+		cz, ez = (mn.z+mx.z)/2, (mx.z-mn.z)/4
+	case 1: // only z
+		cx, ex = (mn.x+mx.x)/2, (mx.x-mn.x)/4
+	}
+	if ex <= 0 || ez <= 0 || mx.x-mn.x < 2 || mx.z-mn.z < 2 {
+		return g.quad()
+	}
+	y := []float32{0, 0.5, 1.25}[r.Intn(3)]
+	mk := func(ex, ez float32) string {
+		return fmt.Sprintf("GI %s %s %s %s %s %s 0", bits(cx), bits(y), bits(cz), bits(ex), bits(0), bits(ez))
+	}
+	g.centres = append(g.centres, v3{cx, y, cz})
+	for i := 0; i < 1+r.Intn(3); i++ {
+		g.script = append(g.script, mk(ex*float32(0.3+r.Float64()*0.6), ez*float32(0.3+r.Float64()*0.6)))
+	}
+	return mk(ex, ez)
+}
+
 func (g *gen) region(w *world, wild bool) string {
 	r := g.rng
 	mn, mx := xyz(w.g.Min), xyz(w.g.Max)
@@ -650,6 +696,8 @@ func runGenerated(seed int64, histories, length int, profile string, wild bool) 
 			switch {
 			case wild && rng.Intn(6) == 0:
 				line = g.wildQuad()
+			case k < 7 && len(g.script) == 0 && rng.Intn(12) == 0:
+				line = g.hug(w)
 			case k < 7:
 				line = g.quad()
 			case k < 9:
